@@ -120,9 +120,14 @@ class Obligation:
     def decide(self, ex, conds, negated_post):
         """one VC: is (path condition and not post) satisfiable?  returns model or None"""
         import z3
+        if z3.is_false(z3.simplify(negated_post)):
+            # the negated post-condition simplifies to false (e.g. both sides are the same term): unsat without a solver call
+            self.queries += 1; self.unsat += 1; self.trivial = getattr(self, 'trivial', 0) + 1
+            return None
         s = ex.solver(); s.add(*conds); s.add(negated_post)
         t = time.time(); r = s.check(); dt = time.time() - t
         self.solver_s += dt; self.queries += 1
+        if dt > 5: log(f'  slow VC in {self.name}: {dt:.1f}s -> {r}')
         if r == z3.unknown:
             raise Inconclusive(f'solver unknown on VC of {self.name}')
         if r == z3.sat:
